@@ -1091,7 +1091,9 @@ class DirStateWorkingTree(InventoryWorkingTree):
                 for entry in path_entries:
                     # for each tree.
                     for index in search_indexes:
-                        if entry[1][index][0] != b"a":  # absent
+                        # absent, or relocated: the id lives at another path
+                        # in that tree, so this path is not versioned there
+                        if entry[1][index][0] not in (b"a", b"r"):
                             found_versioned = True
                             # all good: found a versioned cell
                             break
@@ -2742,7 +2744,9 @@ class InterDirStateTree(InterInventoryTree):
                 for entry in path_entries:
                     # for each tree.
                     for index in indices:
-                        if entry[1][index][0] != b"a":  # absent
+                        # absent, or relocated: the id lives at another path
+                        # in that tree, so this path is not versioned there
+                        if entry[1][index][0] not in (b"a", b"r"):
                             found_versioned = True
                             # all good: found a versioned cell
                             break
